@@ -274,7 +274,7 @@ pub fn run(cfg: &Cfg, rep: &mut Report) -> PropMeta {
     run_cases(cfg, "bgv_factors", cfg.n(2000, 30000) as u64, rep, |i, rng, rep| bgv_factors(cfg, "bgv_factors", i, rng, rep));
     PropMeta {
         id: "C02", level: "exploration",
-        rule: "typed random operation programs (negate, add, sub, add_many, multiply, square, add/sub/multiply_plain incl. NTT-form and monomial plaintexts, transform_to/from_ntt, relinearize, mod_switch_to_next; random API form per step) over pools of fresh BFV/BGV ciphertexts at N=2..32 (mid: 64..256, big: 1024/4096), 2..6 primes, several plain-modulus families; all ordered operand-size pairs (a,b), a+b-1<=16, for add/sub/multiply at N=2,4; BGV unequal correction-factor pairs. distinct = distinct (scheme, op, operand sizes, level, representation) cells asserted with a non-zero shadow",
+        rule: "typed random operation programs (negate, add, sub, add_many, multiply, square, add/sub/multiply_plain incl. NTT-form and monomial plaintexts, transform_to/from_ntt, relinearize, mod_switch_to_next; random API form per step) over pools of fresh BFV/BGV ciphertexts at N=2..32 (mid: 64..256, big: 1024/4096), 2..6 primes, several plain-modulus families; all ordered operand-size pairs (a,b), a+b-1<=16, for add/sub/multiply at N=2,4; BGV unequal correction-factor pairs. distinct = distinct (scheme, op, operand sizes, level, representation) cells asserted with a non-zero shadow. Plus multiply_many of k=1..5 operands against the same tournament written out as multiply + relinearize steps (asserted when the written-out result is inside its noise precondition with a 6-bit margin). Fresh encryptions go through a per-call varying Encryptor entry point (value-returning, destination, caller-supplied u sampler, seeded+expanded)",
         assumptions: vec!["equality asserted only when the worst-case noise bound is below q/(4t) (BFV) or q/4 (BGV): P1 analytic recursion, or P2 one-step worst case from exactly measured operand noise".into(),
             "noise growth rules: see harness/src/prog.rs step_bound (BEHZ lifts assumed within 0.51q; key-switch noise 21*N*sum(q_i)/P + N + 3)".into(),
             "oracle decryptor for N<=256; library decryptor only above".into()],
